@@ -1,7 +1,8 @@
 ----------------------------- MODULE Trace_C06X -----------------------------
 (***************************************************************************)
-(* C06, x86-64 images (variable-length instructions): the structure clause *)
-(* of function recovery.  The generator describes the program it laid out  *)
+(* C06, x86-64 / x86 / AArch64 images (variable-length instructions; fixed  *)
+(* width without delay slots): the structure clause of function recovery.  *)
+(*  The generator describes the program it laid out  *)
 (* (start offset, length, kind, direct target of every instruction - from  *)
 (* its own encoding table, not from capstone); Recover!ReachInstr / Succs  *)
 (* give the architecture's side.  The recovered function (projected to     *)
@@ -49,13 +50,20 @@ Diff(e) ==
   ELSE
     LET f == FunOf(e.res.ok)
         pairs == NativePairs(f)
+        \* an instruction whose lifting yields no IL instruction (the A64 `b`: an empty block) leaves no
+        \* address in the projection; the successor relation is taken through such instructions
+        Vis(a) == AloneOf(e, a) > 0
+        VSuccs(a) == LET step(x) == IF x \in Starts(prog) /\ ~Vis(x) THEN Succs(prog, man, x) ELSE {}
+                         first == Succs(prog, man, a)
+                     IN { x \in Closure(step, first, first) : Vis(x) }
+        head == IF Vis(e.entry) THEN {e.entry} ELSE VSuccs(e.entry)
         d1 == IF NoDangling(f) THEN <<>> ELSE <<"dangling">>
-        d2 == IF ~NoDangling(f) \/ HeadOf(f, f.entry, Fuel(f)) = {e.entry} THEN <<>> ELSE <<"entry">>
+        d2 == IF ~NoDangling(f) \/ HeadOf(f, f.entry, Fuel(f)) = head THEN <<>> ELSE <<"entry">>
         d3 == IF AddrsOf(f) \ reach = {} THEN <<>> ELSE <<"unreachable-present">>
-        d4 == IF reach \ AddrsOf(f) = {} THEN <<>> ELSE <<"reachable-missing">>
+        d4 == IF { a \in reach : Vis(a) } \ AddrsOf(f) = {} THEN <<>> ELSE <<"reachable-missing">>
         d5 == IF \A a \in reach \cap AddrsOf(f) : Cardinality(Occurrences(f, a)) = AloneOf(e, a)
               THEN <<>> ELSE <<"not-exactly-once">>
-        d6 == IF ~NoDangling(f) \/ \A a \in reach \cap AddrsOf(f) : NativeSuccs(pairs, a) = Succs(prog, man, a) \ {a}
+        d6 == IF ~NoDangling(f) \/ \A a \in reach \cap AddrsOf(f) : NativeSuccs(pairs, a) = VSuccs(a) \ {a}
               THEN <<>> ELSE <<"successors">>
     IN d1 \o d2 \o d3 \o d4 \o d5 \o d6
 
